@@ -1162,6 +1162,11 @@ func (x *Ex) call(v *ast.CallExpr, want *Sort) *T {
 		argN(1)
 		a := x.tr(v.Args[0], sSlice)
 		return mk(sapp("sl_off", a.S), sI64)
+	case "zeroOf":
+		// the zero value of the argument's type
+		argN(1)
+		a := x.tr(v.Args[0], want)
+		return x.enc.zeroOfSort(a.Sort, a.GoT)
 	case "visited":
 		// visited(k): the function's (only) map range has already yielded key k
 		argN(1)
